@@ -257,6 +257,8 @@ def check(run):
                 "non-trivial = at least one fault/boundary feature besides injected data (exhaustion, heap-slice fallback, queue full, flush on a closed stream, close with unread/unsent/pinned data, multi-slice write, partial read, stream re-created for late data, parked slice); distinct by op list",
         "samples": [brief(c) for c in cases[2:4]],
         "features": feats, "op_mix": opmix, "total_ops": nops,
+        "histories_rerun_after_an_expired_harness_wait": sum(1 for c in cases if c.get("retries")),
+        "expired_waits": [w for c in cases for w in (c.get("expired") or [])][:10],
         "queue_caps": sorted({c["qcap"] for c in cases}),
         "model_switch_fx_recycle_cleans_pinned": fx,
         "model_switch_chosen_because": fdesc,
@@ -266,6 +268,7 @@ def check(run):
         "allocation choices and per-slice byte counts are inputs of the model (taken from the real run); the allocator itself is C01/C02's subject",
         "one label = one API call or one complete run of handlePolling; Stream.close() is atomic in the model",
         "the harness moves pendingData into recvBuf (what readMore does first) before each read so that reads never block",
+        "harness waits poll up to 60 s; a history in which a wait expires is re-run from scratch (fresh sessions, same seed) up to 2 more times; only a wait that expires in all 3 runs is reported, as an oracle failure (C09:peer-never-drains-queue / C09:socket-event-never-reaches-peer)",
         "data for unknown streams and queue-full are induced by putting elements into the real queue without a wake-up; exhaustion by holding all but k slots via bufferManager.allocShmBuffer",
         "an unused tail behind the write slice (done()'s trimming branch) cannot be produced through BufferWriter; it is exercised only with VERIF_C09_PREALLOC=1"]
 
